@@ -395,6 +395,20 @@ func genGraph(r rng, seed uint64, id, family string, k Knobs) *sdl.Program {
 					}
 				}
 				alias++
+				if r.p(0.05) {
+					// a custom name is taken as declared, blanks at its ends included
+					inst.Alias = " " + inst.Alias + " "
+				} else if !t.Qual && r.p(0.05) {
+					// a component that declares no qualifier but is NAMED like one
+					q := pick(r, qualVals)
+					free := true
+					for _, o := range p.Instances {
+						free = free && o.Alias != q
+					}
+					if free {
+						inst.Alias = q
+					}
+				}
 			} else {
 				unnamedUsed = true
 			}
@@ -516,6 +530,13 @@ func genGraph(r rng, seed uint64, id, family string, k Knobs) *sdl.Program {
 		for j := 0; j < np; j++ {
 			pt := genPoint(r, p, t, k, fmt.Sprintf("F%d", j))
 			t.Points = append(t.Points, pt)
+		}
+		if k.PFunc > 0 && r.p(0.08) {
+			// two func points of one holder that accept different results: what the first accepts
+			// is no business of the second
+			t.Points = append(t.Points,
+				&sdl.Point{Field: "FK1", Kind: sdl.KAnys, Sel: sdl.SelFunc, Name: "SimKind", Returns: []string{"ka"}, Optional: true},
+				&sdl.Point{Field: "FK2", Kind: sdl.KAnys, Sel: sdl.SelFunc, Name: "SimKind", Returns: []string{"kb"}, Optional: true})
 		}
 	}
 	// an injection point declared as an embedded interface that carries the tag itself (only in
